@@ -122,11 +122,13 @@ def static_part(ctx):
     ctx.obligation("struct:integrate-writes-no-attribute", not selfw, json.dumps(selfw) if selfw else "no Behavior method other than __init__ assigns an attribute of self")
     ctx.obligation("struct:DruckerPrager-not-quadratic", not Tr["yield"]["dp_has_P"], "DruckerPrager declares no quadratic form P (never takes the spectral path)")
     struct_ok = okw and not bad_args and not selfw
-    ctx.copy_props("C19/C19_main.v")
+    ctx.copy_props("C19/C19_main.v", "C19/C19_flag.v")
     res = ctx.coq(["Gen_C19.v", "C19_main.v"], timeout=600)
+    flag = ctx.coq(["C19_flag.v"], timeout=300) if res.ok else None
+    ctx.cov["spectral_converged_flag"] = Tr["flag"]["kind"]
     ctx.sample({"theorem": "C19_theta_nonneg : forall Rh dRh rate dt sy tol maxIter pts, Forall (fun q => 0 <= st_th q) (solve Rops Rh dRh rate dt sy tol maxIter pts)",
                 "proof": "induction on the iteration budget with the invariant (active flag frozen, theta >= 0, idle => theta = 0); tie to source: gen_update_match_norate/rate by reflexivity on the regenerated Gen_C19.v"})
-    return Tr, (res, struct_ok, okw, bad_args, selfw)
+    return Tr, (res, struct_ok, okw, bad_args, selfw, flag)
 
 
 # ---------------------------------------------------------------------------------------------
@@ -181,11 +183,11 @@ def spectral_vs_model(ctx, spec_cases, spec_res):
             th, ph, dg = (m[0] / S, m[1] / S, m[2] / S)
             se = [x / S for x in m[3:]]
             ncmp += 1
-            ref = max(abs(pr["phi0"]), 1e-300)
+            ref = max(abs(pr["phi0"]), c["yield"]["sigma_y"])
             # theta is dimension 1/stress: compare theta*phi0 (= dGamma scale), phi, dGamma, eigen-stress
             checks = [("theta*phi0", th * pr["phi0"], pr["theta"] * pr["phi0"], max(c["eps_y"], 1e-12)),
                       ("phi", ph, pr["phi"], ref), ("dGamma", dg, pr["dGamma"], max(c["eps_y"], 1e-12))]
-            ny = max(max(abs(v) for v in pr["sig_eig"]), 1e-300)
+            ny = max(max(abs(v) for v in pr["sig_eig"]), 1e-6 * c["yield"]["sigma_y"])
             checks += [("sig_eig[%d]" % k, a, b, ny) for k, (a, b) in enumerate(zip(se, pr["sig_eig"]))]
             for nm, mv_, iv, scale in checks:
                 if abs(mv_ - iv) > 1e-9 * scale:
@@ -219,13 +221,13 @@ def run(ctx):
     Tr, st = static_part(ctx)
     proofs_ok = False
     if Tr is not None:
-        res, struct_ok, okw, bad_args, selfw = st
+        res, struct_ok, okw, bad_args, selfw, flag = st
         proofs_ok = res.ok and struct_ok
 
     # ------------------------------ correspondence -------------------------------------------
     rng = ctx.rng
     quick = ctx.tier == "quick"
-    cases = G.make_cases(rng, 36 if quick else 220, 10 if quick else 14, 2 if quick else 3)
+    cases = G.corpus() + G.make_cases(rng, 36 if quick else 220, 10 if quick else 14, 2 if quick else 3)
     cases += G.make_adversarial(rng, 9 if quick else 30)
     spec = G.make_spectral(rng, 6 if quick else 24)
     sims = G.make_sims(rng, 2 if quick else 6)
@@ -265,7 +267,12 @@ def run(ctx):
         for kind, k, detail in V:
             key = "%s:%s" % (kind, EV.sig_key(c))
             if kind == "solvers-disagree" or kind == "solvers-disagree-tangent":
-                key = "%s:%s" % (kind, "/".join(str(x) for x in (c["combo"][0], c["combo"][1], c["combo"][3], c["combo"][5])))
+                key = "%s:%s" % (kind, "/".join(str(x) for x in (c["combo"][0], c["combo"][3])))
+            if kind == "tangent-vs-fd":
+                if c["combo"][2] != "none" and c["combo"][4]:
+                    key = "tangent-vs-fd:kinematic+branches"
+                else:
+                    key = "%s:%s" % (kind, "/".join(str(x) for x in (c["combo"][0], "kin" if c["combo"][2] != "none" else "nokin", c["combo"][3], "branches" if c["combo"][4] else "nobranch", c["combo"][5])))
             if key not in found:
                 short = dict(c)
                 short["path"] = c["path"][:k + 1] if k >= 0 else c["path"]
@@ -277,13 +284,18 @@ def run(ctx):
     ctx.cov["plastic_steps"] = nplastic
     ctx.cov["largest_observed_over_tolerance_scale"] = margins
     kinds = sorted(set(k.split(":")[0] for k in found))
-    for pred in ["inadmissible", "dgamma-negative", "plastic-strain-not-traceless", "dissipation-negative", "flow-rule", "stress-state-inconsistent",
+    for pred in ["idle-point-flows", "gauss-points-not-independent", "inadmissible", "dgamma-negative", "plastic-strain-not-traceless", "dissipation-negative", "flow-rule", "stress-state-inconsistent",
                  "tangent-vs-fd", "solvers-disagree", "solvers-disagree-tangent", "plane-stress-szz", "elastic-not-C-eps", "elastic-tangent-not-C",
                  "integrate-writes-its-arguments", "integrate-not-a-function", "non-finite-output", "elastic-step-not-trial", "constructor-rejects", "harness-error"]:
         bad = [k for k in found if k.split(":")[0] == pred]
         ctx.obligation("corr:" + pred, not bad, "; ".join(found[b][0][:160] for b in bad[:3]) or "held on %d converged steps (%d plastic)" % (nconv, nplastic))
+    perkind = {}
     for key, (what, rep) in found.items():
-        ctx.violation(key, what, rep, found_input=True)
+        kd = key.split(":")[0]
+        perkind[kd] = perkind.get(kd, 0) + 1
+        if perkind[kd] <= 6:       # at most 6 configuration families per predicate are reported per run
+            ctx.violation(key, what, rep, found_input=True)
+    ctx.cov["violating_families_per_predicate"] = perkind
     if cases:
         c0 = cases[0]
         r0 = byid.get(c0["id"], {})
@@ -322,8 +334,30 @@ def run(ctx):
         ctx.obligation("corr:sim:" + pred, not bad, "; ".join(bad[:3]) or "held on %d simulation events (bitwise)" % nev)
 
     # ------------------------------ proofs broke: say so, with what was found -----------------
+    if Tr is not None and flag is not None and not flag.ok:
+        # the spectral path reports a flag that is not the loop's break test
+        hits = [k for k in found if k.split(":")[0] in ("solvers-disagree", "inadmissible", "solvers-disagree-tangent", "tangent-vs-fd") ]
+        wit = None
+        for c in cases:
+            r = byid.get(c["id"])
+            if r is None or not r.get("reducible"):
+                continue
+            V = [v for v in EV.evaluate(c, r) if v[0] in ("solvers-disagree", "inadmissible")]
+            if V:
+                wit = (c, V[0])
+                break
+        what = ("Behavior.__Spectral (%s line %d) reports converged=True at every point whatever _spectral.Solve's loop did; "
+                "C19_flag.v (reported flag = residual test |r| < tol*sigma_y) does not check" % (Tr["flag"]["file"], Tr["flag"]["line"]))
+        if wit:
+            c, v = wit
+            short = dict(c)
+            short["path"] = c["path"][:v[1] + 1]
+            short["fd_steps"] = []
+            ctx.violation("spectral-converged-flag-unconditional", what + "; witness: %s step %d: %s" % (c["id"], v[1], v[2]), replay_for(short, v[0]), found_input=True)
+        else:
+            ctx.violation("spectral-converged-flag-unconditional", what, {"obligation": "C19_flag.v", "log": flag.log[-2000:]}, found_input=False)
     if Tr is not None and not proofs_ok:
-        res, struct_ok, okw, bad_args, selfw = st
+        res, struct_ok, okw, bad_args, selfw, flag = st
         concrete = [k for k in found]
         if not res.ok:
             what = "theorem file %s no longer checks against the regenerated Gen_C19.v (the source no longer matches the model the theorems are about)" % res.failed_file
